@@ -151,6 +151,34 @@ pub fn run(tier: Tier, replay: Option<Value>) -> ! {
                 }
             }
         }
+        // and-or chains of 3 and 4 operands: every assignment of {ok, ko} to the operands x every choice of
+        // && / || between them (skipped operands in the middle included), in every wrapper, under the
+        // errexit / ERR-trap option sets: only the LAST operand of the chain is subject to errexit
+        for n in 3..=4usize {
+            for leaves in 0..(1u32 << n) {
+                for ops in 0..(1u32 << (n - 1)) {
+                    let mut text = String::new();
+                    for k in 0..n {
+                        if k > 0 {
+                            text.push_str(if ops >> (k - 1) & 1 == 1 { " && " } else { " || " });
+                        }
+                        text.push_str(&format!("{} {}", if leaves >> k & 1 == 1 { "ko" } else { "ok" }, k + 1));
+                    }
+                    for w in [0usize, 1, 2, 4, 5] {
+                        if w >= WRAPPERS.len() {
+                            continue;
+                        }
+                        let (name, open, close) = WRAPPERS[w];
+                        let body = if name == "eval" { text.replace('\'', "'\\''") } else { text.clone() };
+                        let body = if matches!(name, "and-left" | "cond-of-if") { format!("{{ {body}\n}}") } else { body };
+                        for o in [0usize, 5, 6] {
+                            let tags = vec!["andor-chain".to_string(), format!("operands:{n}"), format!("wrap:{name}"), format!("opts:{}", OPTSETS[o].0)];
+                            cases.push(Case { script: format!("{}{}{open}{body}{close}\necho \"end=$?\"\n", g::PRELUDE, OPTSETS[o].1), tags });
+                        }
+                    }
+                }
+            }
+        }
         // toggles inside functions and subshells
         let toggles = vec![S::Leaf(0), S::Leaf(1), S::Ctl("set +e", None), S::Ctl("set -e", None)];
         for p in g::up_to(3, &toggles) {
